@@ -1,7 +1,6 @@
-(* C10 — pacemaker. Pinned statements only. The "evidence" clause (round r+1 entered only in a step holding a
-   valid QC/TC of round r) is decided by the monitor mon_c10 on implementation traces and is not yet a theorem. *)
+(* C10 — pacemaker. Pinned statements only. *)
 From Coq Require Import List NArith.
-From HS Require Import GTac Node Proto Link NodeInv Global GlobalProps.
+From HS Require Import GTac Node Proto Link NodeInv Global GlobalProps NodePace GlobalPace.
 Import ListNotations.
 Open Scope N_scope.
 
@@ -26,3 +25,12 @@ Check c10_pace : forall (c : Committee) (honest : N -> bool),
   forall (g : gstate) (a : N), greach c honest g -> honest a = true ->
   qc_round (s_high_qc (g a)) < s_round (g a) /\ s_last_voted (g a) <= s_round (g a).
 Print Assumptions c10_pace.
+
+
+Check c10_round_evidence : forall (c : Committee) (honest : N -> bool),
+  NoDup (members c) -> 3 * byz_stake (stk c) (members c) honest < total (stk c) (members c) ->
+  forall (g : gstate) (a : N), greach c honest g -> honest a = true ->
+  s_round (g a) = 1 \/
+  (exists h, certified (stk c) (members c) honest (gw g) h (s_round (g a) - 1)) \/
+  (exists es, validtc (stk c) (members c) honest (gw g) (s_round (g a) - 1) es).
+Print Assumptions c10_round_evidence.
